@@ -135,3 +135,41 @@ Proof.
   - intros x Hx. apply Threshold_proofs.firstn_incl in Hx. apply (Permutation_in _ Hp) in Hx. apply Hk in Hx.
     destruct Hx as (p & Hpw & Hx). destruct (complete_cands v p ties Hpw) as [Ha Hb]. destruct Hx as [->| ->]; assumption.
 Qed.
+
+(* ================================================================ approval voting / SAV: ApprovalToSimpleVotes in front of plurality *)
+From VL Require Import Model.ApprovalSimple.
+Close Scope Q_scope.
+Close Scope Z_scope.
+Open Scope nat_scope.
+
+Lemma approval_inner_nodup (l : list C) (w : Q) : forall d : list (C * Q), NoDup (map fst d) ->
+  NoDup (map fst (fold_left (fun d c => dset d c (dget_or d c 0 + w)%Q) l d)).
+Proof.
+  induction l as [|c l IH]; intros d Hd; cbn [fold_left]; [exact Hd|]. apply IH. apply (dset_keys d c _ Hd).
+Qed.
+
+Lemma approval_simple_keys split (votes : list (list C * Q)) :
+  NoDup (map fst (approval_simple split votes)) /\
+  forall x, In x (map fst (approval_simple split votes)) <-> In x (flat_map fst votes).
+Proof.
+  unfold approval_simple.
+  assert (G : forall (vs : list (list C * Q)) (d : list (C * Q)), NoDup (map fst d) ->
+     let d' := fold_left (fun d (bw : list C * Q) =>
+                 fold_left (fun d c => dset d c (dget_or d c 0 + ballot_share split (fst bw) (snd bw))%Q) (fst bw) d) vs d in
+     NoDup (map fst d') /\ forall x, In x (map fst d') <-> In x (map fst d) \/ In x (flat_map fst vs)).
+  { induction vs as [|[b w] vs IH]; intros d Hd; cbn [fold_left flat_map fst snd].
+    - split; [exact Hd|]. intros x. split; [intros H; left; exact H|intros [H|[]]; exact H].
+    - destruct (IH _ (approval_inner_nodup b (ballot_share split b w) d Hd)) as [N K]. cbv zeta in N, K. split; [exact N|].
+      intros x. rewrite K, spav_inner_keys, in_app_iff. tauto. }
+  destruct (G votes [] (NoDup_nil _)) as [N K]. cbv zeta in N, K. split; [exact N|]. intros x. rewrite K. cbn. tauto.
+Qed.
+
+(* exactly n entries in normal form over the candidates approved by somebody; no hypothesis on the profile *)
+Theorem approval_plurality_nform split (votes : list (list C * Q)) n : 1 <= n <= length (approval_cands votes) ->
+  nform (approval_cands votes) n (approval_plurality split votes n).
+Proof.
+  intros Hn. destruct (approval_simple_keys split votes) as [N K].
+  destruct (JR_proofs.canon_set_spec (flat_map fst votes)) as [Hcn Hck]. fold (approval_cands votes) in Hcn, Hck.
+  unfold approval_plurality. apply (gnb_nform_perm Qle_bool Qle_bool_total Qle_bool_trans); [exact Hn|exact N|exact Hcn|].
+  intros x. rewrite K. symmetry. apply Hck.
+Qed.
